@@ -152,7 +152,9 @@ func validate(filter types.Value) error {
 }
 
 func patch(doc, update types.Map) (types.Map, error) {
-	doc = doc.Mutable()
+	// A private copy: the stored document may itself be a mutable map (one handed to Insert as such),
+	// and Mutable() of a mutable map is that same map.
+	doc = doc.Immutable().Mutable()
 	for k, value := range update.Range() {
 		key, ok := k.(types.String)
 		if !ok {
